@@ -439,3 +439,161 @@ def run(ctx):
                 ok = b.get("k") == "bin" and b["op"] == "Ne" and {local_of(b["l"]), local_of(b["r"])} == {cl["params"][0].get("b"), de.params[1]["b"]}
         ctx.ob("R01.8", site_key(de, "retain(|x| x != e)"), ok, de.where, "delete keeps exactly the elements different from e")
     ctx.guard("R01.8", r8)
+
+    # ---------------------------------------------------------------- R01.10 the state-kind predicates
+    ctx.rule("R01.10", "the state-kind predicates the entry/exit-set procedures branch on (isSCXMLElement, isAtomicState[Id], isCompoundState, "
+                       "isCompoundStateOrScxmlElement, isParallelState, isFinalState[Id], isHistoryState) have the truth table of the audited "
+                       "tree over the six kinds of state (<scxml> root, compound, atomic, parallel, final, history): each body is evaluated "
+                       "abstractly on one representative per kind, whatever its spelling")
+
+    def r10():
+        class Unknown(Exception):
+            pass
+
+        class Ret(Exception):
+            def __init__(self, v):
+                self.v = v
+        ROOT = 1
+        KINDS = {   # id -> (name, is_final, is_parallel, has no children, history_type is None)
+            1: ("root", False, False, False, True), 2: ("compound", False, False, False, True), 3: ("atomic", False, False, True, True),
+            4: ("parallel", False, True, False, True), 5: ("final", True, False, True, True), 6: ("history", False, False, True, False)}
+        PREDS = ("isSCXMLElement", "isAtomicState", "isAtomicStateId", "isCompoundState", "isCompoundStateOrScxmlElement", "isParallelState",
+                 "isFinalState", "isFinalStateId", "isHistoryState")
+        EXPECT = {   # kind order: root, compound, atomic, parallel, final, history
+            "isSCXMLElement": "TFFFFF", "isAtomicState": "FFTFTT", "isAtomicStateId": "FFTFTT", "isCompoundState": "TTFFFF",
+            "isCompoundStateOrScxmlElement": "TTFFFF", "isParallelState": "FFFTFF", "isFinalState": "FFFFTF", "isFinalStateId": "FFFFTF",
+            "isHistoryState": "FFFFFT"}
+
+        def ev(fn, n, env, depth):
+            k = n.get("k")
+            if hirq.in_trace_macro(n) or "tracer::" in (n.get("p") or ""):
+                return ("unit",)
+            if k == "block":
+                for s in n["st"]:
+                    ev(fn, s, env, depth)
+                return ev(fn, n["tail"], env, depth) if "tail" in n else ("unit",)
+            if k == "let":
+                if "init" in n and n["pat"].get("k") == "bind":
+                    try:
+                        env[n["pat"]["b"]] = ev(fn, n["init"], env, depth)
+                    except Unknown:
+                        env[n["pat"]["b"]] = ("unknown",)
+                return ("unit",)
+            if k in ("ref", "cast") or (k == "un" and n["op"] == "Deref"):
+                return ev(fn, n["e"], env, depth)
+            if k == "un" and n["op"] == "Not":
+                v = ev(fn, n["e"], env, depth)
+                if isinstance(v, bool):
+                    return not v
+                raise Unknown("! of a non-boolean")
+            if k == "lit":
+                v = const_eval(n)
+                if v is None:
+                    raise Unknown("literal")
+                return v
+            if k == "path":
+                r = n["r"]
+                if r.get("k") == "local":
+                    v = env.get(r["b"], ("unknown",))
+                    if v == ("unknown",):
+                        raise Unknown("local " + r.get("n", "?"))
+                    return v
+                p = r.get("p", "")
+                if "HistoryType::" in p:
+                    return ("hist", p.split("::")[-1])
+                raise Unknown("path " + p)
+            if k == "field":
+                b = ev(fn, n["e"], env, depth)
+                if b == ("self",):
+                    if n["n"] == "pseudo_root":
+                        return ROOT
+                    raise Unknown("self." + n["n"])
+                if isinstance(b, tuple) and b[0] == "state":
+                    _, fin, par, empty, hnone = KINDS[b[1]]
+                    if n["n"] == "is_final":
+                        return fin
+                    if n["n"] == "is_parallel":
+                        return par
+                    if n["n"] == "states":
+                        return ("children", empty)
+                    if n["n"] == "history_type":
+                        return ("hist", "None" if hnone else "Deep")
+                    if n["n"] == "id":
+                        return b[1]
+                raise Unknown("field ." + n["n"])
+            if k == "bin":
+                op = n["op"]
+                if op in ("And", "Or"):
+                    l = ev(fn, n["l"], env, depth)
+                    if not isinstance(l, bool):
+                        raise Unknown("bool")
+                    if (op == "And" and not l) or (op == "Or" and l):
+                        return l
+                    r = ev(fn, n["r"], env, depth)
+                    if not isinstance(r, bool):
+                        raise Unknown("bool")
+                    return r
+                l, r = ev(fn, n["l"], env, depth), ev(fn, n["r"], env, depth)
+                if op in ("Eq", "Ne"):
+                    return (l == r) == (op == "Eq")
+                if isinstance(l, int) and isinstance(r, int) and not isinstance(l, bool) and op in ("Gt", "Lt", "Ge", "Le"):
+                    return {"Gt": l > r, "Lt": l < r, "Ge": l >= r, "Le": l <= r}[op]
+                raise Unknown("operator " + op)
+            if k == "if":
+                c = ev(fn, n["c"], env, depth)
+                if not isinstance(c, bool):
+                    raise Unknown("condition")
+                if c:
+                    return ev(fn, n["t"], env, depth)
+                return ev(fn, n["e"], env, depth) if "e" in n else ("unit",)
+            if k == "ret":
+                raise Ret(ev(fn, n["e"], env, depth) if "e" in n else ("unit",))
+            if k in ("call", "mcall"):
+                p = n.get("p") or ""
+                args = ([n["r"]] if k == "mcall" else []) + list(n["a"])
+                name = p.split("::")[-1]
+                if k == "mcall" and n["m"] == "is_empty" and not n["a"]:
+                    v = ev(fn, n["r"], env, depth)
+                    if isinstance(v, tuple) and v[0] == "children":
+                        return v[1]
+                    raise Unknown("is_empty of something else")
+                if path_matches(p, ALG + "get_state_by_id"):
+                    sid = ev(fn, args[1], env, depth)
+                    if sid in KINDS:
+                        return ("state", sid)
+                    raise Unknown("get_state_by_id(%r)" % (sid,))
+                if name in PREDS and p.startswith(ALG):
+                    if depth <= 0:
+                        raise Unknown("depth")
+                    return run_pred(name, [ev(fn, a, env, depth) for a in args], depth - 1)
+                if k == "mcall" and n["m"] in ("clone", "to_owned") and not n["a"]:
+                    return ev(fn, n["r"], env, depth)
+                raise Unknown("call " + (p or n.get("m", "?")))
+            raise Unknown("node " + str(k))
+
+        def run_pred(name, argv, depth=3):
+            fn = F.fn(ALG + name)
+            env = {}
+            for pat, v in zip(fn.params, argv):
+                if pat.get("k") == "bind":
+                    env[pat["b"]] = v
+            try:
+                return ev(fn, fn.hir, env, depth)
+            except Ret as r:
+                return r.v
+
+        for name in PREDS:
+            fn = F.fn(ALG + name)
+            takes_state = "State" in (fn.params[1].get("ty", "") if len(fn.params) > 1 else "") and "StateId" not in fn.params[1].get("ty", "")
+            got = ""
+            why = ""
+            for sid in sorted(KINDS):
+                try:
+                    v = run_pred(name, [("self",), ("state", sid) if takes_state else sid])
+                    got += "T" if v is True else ("F" if v is False else "?")
+                except Unknown as e:
+                    got += "?"
+                    why = str(e)
+            ctx.ob("R01.10", site_key(fn, "truth table over root/compound/atomic/parallel/final/history"), got == EXPECT[name], fn.where,
+                   "%s gives %s, the audited tree %s%s" % (name, got, EXPECT[name], ("; not evaluable: " + why) if "?" in got else ""))
+    ctx.guard("R01.10", r10)
